@@ -462,6 +462,7 @@ pub fn generate_t(prop: &str, seed: u64, thorough: bool) -> W3Scn {
         rng_seed: r.next(),
         allow_offgrid: p.offgrid > 0.0,
         allow_overflow: p.overflow,
+        marathon: 0,
     };
     let ms: Vec<Model> = (0..assets).map(|a| Model::new(t0, cfg.ticks[a], trading0, Tie::Fifo)).collect();
     let long = !p.overflow && big.is_none() && p.long_run > 0.0 && r.chance(p.long_run);
@@ -571,5 +572,11 @@ pub fn generate_t(prop: &str, seed: u64, thorough: bool) -> W3Scn {
         g.step(true);
     }
     let ops = std::mem::take(&mut g.ops);
+    let mut cfg = cfg;
+    // C11, very rarely: a marathon - more than 2^20 steps on one environment (see w3exec::marathon)
+    if prop == "C11" && g.r.chance(0.00005) && (!cfg.market || (cfg.levels <= 3 && cfg.assets <= 2)) {
+        cfg.marathon = (1 << 20) + g.r.range(1, 40);
+        cfg.levels = if cfg.market { cfg.levels } else { *g.r.pick(&[1usize, 2, 3]) };
+    }
     W3Scn { cfg, ops }
 }
